@@ -28,7 +28,7 @@ TRUSTED_BASE = ['numpy.linalg.svd as the true operator norm in the oracle',
                 'complex operators are not generated for C19 (real part/imag part product is the same formula)']
 ASSUMPTIONS = ['convergence of the power iteration to the norm is not proved (only checked loosely by the oracle for long budgets)']
 PREAMBLE = 'From MrVerif Require Import Model.CG Model.PowerIter.\nFrom Coq Require Import QArith List.\nImport ListNotations.'
-STATS = {'boundary_skipped': 0, 'max_rel_diff': 0.0, 'stopped_by_tolerance': 0}
+STATS = {'boundary_skipped': 0, 'max_rel_diff': 0.0, 'stopped_by_tolerance': 0, 'exact_breakdown': 0}
 TOL = 1e-9
 
 
@@ -191,7 +191,7 @@ def _near_boundary(case, rows):
         for q, o in zip(r, old):
             a, b = math.sqrt(max(q, 0.0)), math.sqrt(max(o, 0.0))
             margin = abs(a - b) - (atol + rtol * b)
-            if abs(margin) <= 1e-6 * max(a, b, atol, 1e-300):
+            if abs(margin) <= 1e-6 * (atol + rtol * b) + 1e-12 * max(a, b):
                 return True
         old = r
     return False
@@ -219,9 +219,15 @@ def compare_power(case, obs, model):
         return None
     finite = all(math.isfinite(v) for v in obs['ret'])
     if status == 1:
-        if finite:
-            return f'model: 0/0 in the normalisation (nan), impl returns {obs["ret"]}'
+        # exact breakdown: some G^k v0 is exactly 0 (start vector in the kernel).  The implementation gives nan when the
+        # float computation is exact as well, and rounding noise (then renormalised) otherwise: only the prefix is compared
+        STATS['exact_breakdown'] += 1
         seq = obs['seq'][:len(mtrace)]
+        scale = max([1e-300] + [v for r in mtrace for v in r])
+        for k, (row, mrow) in enumerate(zip(seq, mtrace)):
+            if len(row) != len(mrow) or any(not (abs(a * a - m) <= TOL * scale) for a, m in zip(row, mrow)):
+                return f'callback {k} (before exact breakdown): estimate^2 model {mrow}, impl {[a * a for a in row]}'
+        return None
     else:
         if not finite:
             return f'model returns {mest}, impl returns {obs["ret"]}'
@@ -263,7 +269,7 @@ def oracle_power(case, obs):
         for a, b in zip(obs['seq'][k - 1], obs['seq'][k]):
             if b < a * (1 - 1e-9):
                 return f'callback sequence decreases at step {k}: {a!r} -> {b!r}'
-    if 'unscaled' in obs:
+    if 'unscaled' in obs and not _degenerate(case):
         u = obs['unscaled']
         if 'raises' in u:
             return f'start vector times 2^{case["scale_exp"]} works but the unscaled one raises {u["raises"]}'
